@@ -82,7 +82,7 @@ op("expand", "xsimd::expand(a, m)", "BM", ALL_TYPES)
 op("extract_pair", "xsimd::extract_pair(a, b, (std::size_t)n)", "BBI", ALL_TYPES)
 for _k in (0, 1, 2, 3):
     op("insert_%d" % _k, "xsimd::insert(a, s, xsimd::index<%d>())" % _k, "BS", ALL_TYPES)
-for _k in (0, 1, 4, 8, 12):
+for _k in (0, 1, 3, 4, 7, 8, 12):
     op("slide_left_%d" % _k, "xsimd::slide_left<%d>(a)" % _k, "B", INT_TYPES)
     op("slide_right_%d" % _k, "xsimd::slide_right<%d>(a)" % _k, "B", INT_TYPES)
 for _k in (0, 1, 3):
